@@ -3,7 +3,8 @@
 # Rebuilds the verifier if needed, regenerates every obligation of the property from /repo's current working tree
 # (build tag verif) and discharges them with z3 / z3-new / cvc5.  Thorough: longer time-outs, all three solvers on every
 # obligation, a cover for every return path, and the must-fail self-test (seeded changes of this property applied to a
-# scratch worktree of /repo's HEAD, never to /repo), whose outcome is recorded in the evidence.
+# scratch worktree of /repo's HEAD, never to /repo) and the BOUNDED differential validation of the assumed contracts
+# against the real libraries (/verif/validate), both recorded in the evidence.
 set -u
 PROP="$1"; TIER="${2:-quick}"
 [ "${VERIF_TIER:-}" = "quick" ] && TIER=quick
@@ -16,8 +17,10 @@ fi
 if [ "$TIER" = "thorough" ]; then
   ST=$(mktemp /tmp/govc-selftest-XXXXXX.json)
   /verif/seeded/selftest.sh "$PROP" "$ST" >/dev/null 2>&1
-  GOVC_SELFTEST="$ST" /verif/bin/govc check -prop "$PROP" -tier "$TIER"; RC=$?
-  rm -f "$ST"
+  VL=$(mktemp /tmp/govc-validate-XXXXXX.txt)
+  /verif/validate/run.sh > "$VL" 2>&1; echo "exit=$?" >> "$VL"
+  GOVC_SELFTEST="$ST" GOVC_VALIDATION="$VL" /verif/bin/govc check -prop "$PROP" -tier "$TIER"; RC=$?
+  rm -f "$ST" "$VL"
   exit $RC
 fi
 exec /verif/bin/govc check -prop "$PROP" -tier "$TIER"
